@@ -52,20 +52,29 @@ def gen_cases(tier, seed):
         cases.append({'seed': int(rng.integers(2 ** 31)),
                       'n_partitions': 4 if tier == 'quick' else 8,
                       'raw': bool(i % 3 != 0),
+                      'big': bool(i % 5 == 4),
                       'x_dtype': ['float64', 'int32', 'float32', 'int64',
                                   'float64'][i % 5]})
     return cases
 
 
-def make_dataset(rng, raw, x_dtype):
+def make_dataset(rng, raw, x_dtype, big=False):
     d = int(rng.integers(1, 5))
     k = int(rng.integers(1, 9))
+    if big:
+        # clusters with several hundred cells scattered over chunks and
+        # workers: per-worker counters must not be narrower than the total
+        d = int(rng.integers(1, 3))
+        k = int(rng.integers(1, 4))
     forest = gen.random_forest(rng, d, k)
     model = gen.build_from_shape(forest, d, rng,
                                  level_pool=['lvA', 'lvB', 'lvC', 'lvD'],
                                  share_names=False)
     n_genes = int(rng.integers(2, 20))
     n_cells = int(rng.integers(max(2, k), 70))
+    if big:
+        n_genes = int(rng.integers(2, 5))
+        n_cells = int(rng.integers(300, 1100))
     genes = gen.gene_names(rng, n_genes)
     # labels: every leaf at least one cell when possible; some unlabelled
     leaves = model.leaves
@@ -75,6 +84,8 @@ def make_dataset(rng, raw, x_dtype):
             labels.append(leaves[i])
         elif rng.random() < 0.15:
             labels.append(None)
+        elif big and rng.random() < 0.8:
+            labels.append(leaves[0])
         else:
             labels.append(leaves[int(rng.integers(len(leaves)))])
     order = rng.permutation(n_cells)
@@ -264,7 +275,8 @@ def run_case(spec, work):
     rng = np.random.default_rng(spec['seed'])
     ctx = Ctx()
     raw = spec['raw']
-    model, genes, cells, labels, X = make_dataset(rng, raw, spec['x_dtype'])
+    model, genes, cells, labels, X = make_dataset(rng, raw, spec['x_dtype'],
+                                                  big=spec.get('big', False))
     is32 = str(X.dtype) == 'float32'
     tol = 2e-5 if is32 else 1e-9
     norm = 'raw' if raw else 'log2CPM'
@@ -282,6 +294,8 @@ def run_case(spec, work):
         enc = str(rng.choice(['dense', 'csr', 'csc']))
         rat = int(rng.choice([1, 2, 3, max(1, n_cells // 2), n_cells,
                               n_cells + 1]))
+        if spec.get('big'):
+            rat = int(rng.choice([50, 100, 37, n_cells // 3]))
         n_proc = int(rng.integers(1, 6))
         out = work / f'stats_{pi}.h5'
         what = (f'entry={entry} encoding={enc} rows_at_a_time={rat} '
@@ -485,6 +499,9 @@ def run_case(spec, work):
         tb = traceback.format_exc()
         sig, last = oracles.exception_signature(tb)
         ctx.V(f'C09:merge-raises:{sig}', last)
+    ctx.bump('largest_cluster_cells',
+             0 if not spec.get('big') else
+             max(sum(1 for l in labels if l == lf) for lf in model.leaves))
     feats = (X.shape, len(leaves_with_cells), norm, len(model.hierarchy),
              str(X.dtype))
     return {'violations': ctx.viol, 'counters': ctx.counters,
